@@ -22,7 +22,7 @@ def gen_envs(rng, n_envs, quick=True):
                "gc": "%d:%d" % (rng.below(1 << 30), ppm) if ppm else None, "rules": rules}
         if rng.chance(1, 4):
             # artefacts an earlier build left at the paths about to be written
-            env["dirty"] = {"kind": rng.choice(["longer", "shorter", "other_program", "garbage"]), "fill": rng.hexbytes(8)}
+            env["dirty"] = {"kind": rng.choice(["longer", "shorter", "other_program", "garbage", "older_revision", "older_revision"]), "fill": rng.hexbytes(8)}
         # how the program is invoked — none of it may change what the program does:
         # where the project lives (the command is started one level above, so the spelled path contains the name)
         env["subdir"] = rng.weighted([(None, 8), ("job#42", 1), ("sp ace", 1), ("é#x", 1), ("<drafts>", 1)])
